@@ -139,16 +139,18 @@ def blockUpdate (until_ : Option Int) (bypassable : Bool) (t : Int) (durNs : Nat
   let block := t + durNs
   if replace || block > until_.getD t then (some block, bypass) else (until_, bypassable)
 
+/-- the slot `do_scheduled_action` executes: the first one due at `target`, client side first -/
+def findAction {σ} (st : St σ) (target : Int) : Option (Bool × Nat × SchedAction) :=
+  match findSlot (fun (a : SchedAction) => a.time == target) st.client.schedAction 0 with
+  | some (i, a) => some (true, i, a)
+  | none =>
+    match findSlot (fun (a : SchedAction) => a.time == target) st.server.schedAction 0 with
+    | some (i, a) => some (false, i, a)
+    | none => none
+
 /-- `do_scheduled_action` -/
 def doScheduledAction {σ} (st : St σ) (target : Int) : Except SimFault (SimEvent × St σ) :=
-  let found : Option (Bool × Nat × SchedAction) :=
-    match findSlot (fun (a : SchedAction) => a.time == target) st.client.schedAction 0 with
-    | some (i, a) => some (true, i, a)
-    | none =>
-      match findSlot (fun (a : SchedAction) => a.time == target) st.server.schedAction 0 with
-      | some (i, a) => some (false, i, a)
-      | none => none
-  match found with
+  match findAction st target with
   | none => .error .noAction
   | some (isClient, i, a) =>
     let sd := st.side isClient
